@@ -413,6 +413,27 @@ func objFnCheck(o, o2 val.Value) (string, int) {
 			return m, evals
 		}
 	}
+	// ... and over an array of objects: the selections from the objects that have
+	// the member, normalised like any path result (compared through a wrapper
+	// array so that 'no value', one value and several values stay apart)
+	for k := range union {
+		if k == "" {
+			continue
+		}
+		e := fmt.Sprintf(`{"v": $lookup(arr, %s)} = {"v": arr.%s}`, ast.QuoteString(k, false), "`"+k+"`")
+		skip := false
+		for _, x := range []val.Value{o, o2} {
+			if v, ok := x.O[k]; ok && v.K == val.Arr {
+				skip = true // array-valued members: flattening rules of paths, C01's subject
+			}
+		}
+		if skip {
+			continue
+		}
+		if m := isTrue(e); m != "" {
+			return m, evals
+		}
+	}
 	return "", evals
 }
 
